@@ -23,6 +23,7 @@ const (
 	c18PPut
 	c18PDestroy // destroy callback observed (point operation inside a Get)
 	c18PAdvance // virtual clock moved forward
+	c18PPutNil  // Put(nil): documented no-op
 )
 
 const c18PoolMaxIDs = 64
@@ -41,8 +42,10 @@ func (i c18PoolIn) String() string {
 		return fmt.Sprintf("Put(#%d)", i.ID)
 	case c18PDestroy:
 		return fmt.Sprintf("destroy(#%d)", i.ID)
+	case c18PPutNil:
+		return "Put(nil)"
 	default:
-		return fmt.Sprintf("advance(%dms)", i.D)
+		return fmt.Sprintf("advance(%dns)", i.D)
 	}
 }
 
@@ -103,6 +106,8 @@ func c18PoolModel(limit int, maxAge int64) porcupine.Model {
 				s.idle &^= bit
 				s.dead |= bit
 				return true, s
+			case c18PPutNil:
+				return true, s // ignored: neither a resource nor a slot changes hands
 			default:
 				s.now += i.D
 				return true, s
@@ -114,8 +119,9 @@ func c18PoolModel(limit int, maxAge int64) porcupine.Model {
 type c18PRes struct{ id int }
 
 type c18PoolIter struct {
-	Pre  int `json:"pre,omitempty"`
-	Hold int `json:"hold,omitempty"`
+	Pre    int  `json:"pre,omitempty"`
+	Hold   int  `json:"hold,omitempty"`
+	NilPut bool `json:"nilput,omitempty"` // additionally call Put(nil) while holding the resource
 }
 
 type c18ClockOp struct {
@@ -147,7 +153,7 @@ func c18GenPool(r interface{ Intn(int) int }, aged bool) c18PoolScn {
 	for c := 0; c < nclients; c++ {
 		var its []c18PoolIter
 		for j := 0; j < percl; j++ {
-			its = append(its, c18PoolIter{Pre: c18PreDelay(r, tight), Hold: c18PreDelay(r, tight)})
+			its = append(its, c18PoolIter{Pre: c18PreDelay(r, tight), Hold: c18PreDelay(r, tight), NilPut: r.Intn(5) == 0})
 			total++
 		}
 		sc.Clients = append(sc.Clients, its)
@@ -201,6 +207,7 @@ func c18RunPool(m *vk.M, idx int, sc c18PoolScn) bool {
 		twoHold   int32 // id+1 of a resource seen with two holders
 		deadReuse int32 // id+1 of a destroyed resource handed out
 		overflow  int32
+		nilPuts   int64
 		wg        sync.WaitGroup
 		start     = make(chan struct{})
 		gate      = c18NewGate(int32(len(sc.Clients) + b2i(len(sc.Clock) > 0)))
@@ -273,6 +280,13 @@ func c18RunPool(m *vk.M, idx int, sc c18PoolScn) bool {
 					atomic.StoreInt32(&twoHold, int32(id+1))
 					return // do not Put a resource somebody else also holds
 				}
+				if it.NilPut {
+					call = vk.Seq()
+					p.Put(nil)
+					ret = vk.Seq()
+					lg.add(ci, c18PoolIn{Op: c18PPutNil}, call, 0, ret)
+					atomic.AddInt64(&nilPuts, 1)
+				}
 				c18Delay(it.Hold)
 				atomic.StoreInt32(&holder[id], 0)
 				call = vk.Seq()
@@ -343,6 +357,7 @@ func c18RunPool(m *vk.M, idx int, sc c18PoolScn) bool {
 	m.Count("pool_creates", int64(ncreate))
 	m.Count("pool_reuses", int64(ngets-ncreate))
 	m.Count("pool_destroys", int64(ndestroy))
+	m.Count("pool_put_nil", atomic.LoadInt64(&nilPuts))
 	m.Count("pool_clock_advances", int64(len(sc.Clock)))
 	m.Max("pool_max_live", int64(atomic.LoadInt32(&liveMax)))
 	nontrivial := ngets > ncreate || ndestroy > 0
